@@ -204,8 +204,32 @@ def fsm_seam(ctx, rng):
     return trace, n, dr
 
 
-def validate(ctx, trace, label, ntraces, prop="C01"):
-    """RaftPinsetTrace: TLC evaluates the C01 invariants on the states the real code reached."""
+def validate(ctx, trace, label, ntraces, prop="C01", chunk=250000):
+    """RaftPinsetTrace: TLC evaluates the C01 invariants on the states the real code reached.
+    Large trace files are cut at run boundaries ("reset" lines) and validated piecewise."""
+    n = sum(1 for _ in open(trace))
+    if n <= chunk:
+        return validate_one(ctx, trace, label, ntraces, prop)
+    part, k, cur = 0, 0, None
+    paths = []
+    for line in open(trace):
+        if cur is None or (k >= chunk and line.startswith('{') and '"ev":"reset"' in line):
+            if cur:
+                cur.close()
+            part += 1
+            k = 0
+            paths.append("%s.part%d" % (trace, part))
+            cur = open(paths[-1], "w")
+        cur.write(line)
+        k += 1
+    if cur:
+        cur.close()
+    for i, pth in enumerate(paths):
+        validate_one(ctx, pth, "%s_%d" % (label, i + 1), 0, prop)
+        os.remove(pth)
+
+
+def validate_one(ctx, trace, label, ntraces, prop="C01"):
     import vcheck
     verdict = os.path.join(ctx.work, "c01_verdict_%s.ndjson" % label)
     r = tla.run_tlc(ctx.specdir(), "RaftPinsetTrace.tla", "RaftPinsetTrace.cfg", workers=1, timeout=3000, heap="6g",
